@@ -4,9 +4,9 @@ package main
 
 import (
 	"crypto/sha256"
-	"errors"
 	"encoding/binary"
 	"encoding/hex"
+	"errors"
 	"fmt"
 	"math/big"
 	"os"
@@ -383,6 +383,29 @@ func (t *Trace) checkpoint(n *Node, u *Universe, withRunning, full bool) {
 			t.add(fmt.Sprintf("dumpfrom %s %s %x", modelName(n), fam, lo), real, "family "+fam+" of "+modelName(n))
 		} else {
 			t.add("dump "+modelName(n)+" "+fam, real, "family "+fam+" of "+modelName(n))
+		}
+	}
+}
+
+// checkpointOp: the cheap families after a single operation (everything but the two that hold 8 MB
+// aggregated filters), so that a wrong intermediate state is seen at the operation that produced it.
+func (t *Trace) checkpointOp(n *Node, u *Universe) {
+	if t == nil {
+		return
+	}
+	lo := u.ObsFrom
+	for _, fam := range families {
+		if fam == "running" || fam == "persisted" {
+			continue
+		}
+		real, err := t.realFamily(n, fam, lo)
+		if err != nil {
+			real = "harness-error:" + err.Error()
+		}
+		if lo > 0 {
+			t.add(fmt.Sprintf("dumpfrom %s %s %x", modelName(n), fam, lo), real, "family "+fam+" of "+modelName(n)+" after an operation")
+		} else {
+			t.add("dump "+modelName(n)+" "+fam, real, "family "+fam+" of "+modelName(n)+" after an operation")
 		}
 	}
 }
